@@ -2,6 +2,7 @@ package an
 
 import (
 	"go/token"
+	"sort"
 	"strings"
 
 	"golang.org/x/tools/go/ssa"
@@ -269,7 +270,20 @@ func HeldAt(fn *ssa.Function, spec GuardSpec, entry int, target ssa.Instruction)
 func MethodsOf(all map[*ssa.Function]bool, pkgSuffix, typeName string) []*ssa.Function {
 	var out []*ssa.Function
 	seenOrigin := map[string]bool{}
+	// deterministic choice among the instances of a generic method: fully
+	// instantiated bodies first (their callees are instantiated too), then by name
+	cands := make([]*ssa.Function, 0, 64)
 	for f := range all {
+		cands = append(cands, f)
+	}
+	generic := func(f *ssa.Function) bool { return f.TypeParams().Len() > 0 && len(f.TypeArgs()) == 0 }
+	sort.Slice(cands, func(i, j int) bool {
+		if gi, gj := generic(cands[i]), generic(cands[j]); gi != gj {
+			return !gi
+		}
+		return cands[i].String() < cands[j].String()
+	})
+	for _, f := range cands {
 		if f.Signature.Recv() == nil || len(f.Blocks) == 0 || f.Synthetic != "" && !strings.Contains(f.Synthetic, "instance") {
 			continue
 		}
